@@ -1,4 +1,5 @@
 CONSTANT MaxLen = 2
+CONSTANT Deep = 0
 INIT EditInit
 NEXT Next
 INVARIANT Export
